@@ -6,6 +6,7 @@ import GlmVerif.Spec.C09
 import GlmVerif.Spec.C10
 import GlmVerif.Spec.C12
 import GlmVerif.Spec.C13
+import GlmVerif.Spec.C16
 import GlmVerif.Spec.C17
 import GlmVerif.Spec.C19
 namespace Glm.Spec
@@ -18,6 +19,7 @@ def familiesOf : String → List Family
   | "C10" => C10.families
   | "C12" => C12.families
   | "C13" => C13.families
+  | "C16" => C16.families
   | "C17" => C17.families
   | "C19" => C19.families
   | _ => []
